@@ -256,7 +256,7 @@ def coq_mismatches(workdir, tag, imports, fn, eqb, in_ty, out_ty, pairs, shard=4
             + "Fixpoint mism (i : N) (l : list ((%s) * (%s))) : list N :=\n" % (in_ty, out_ty)
             + "  match l with [] => [] | (a, b) :: r => if (%s) ((%s) a) b then mism (N.succ i) r else i :: mism (N.succ i) r end.\n" % (eqb, fn)
             + 'Goal True. idtac "@@RESULT". Abort.\n'
-            + "Eval vm_compute in (mism 0%N cases).\n"
+            + "Eval vm_compute in (List.length cases, mism 0%N cases).\n"
         )
         jobs.append((os.path.join(workdir, "Cases_%s_%d.v" % (tag, s // shard)), text, timeout))
     bad = []
@@ -264,10 +264,17 @@ def coq_mismatches(workdir, tag, imports, fn, eqb, in_ty, out_ty, pairs, shard=4
         for k, (rc, out, err) in enumerate(ex.map(_coq_eval_one, jobs)):
             if rc != 0:
                 raise CheckFailure("coq evaluation of %s failed:\n%s\n%s" % (jobs[k][0], out[-2000:], err[-4000:]))
-            m = re.search(r"@@RESULT\s*=\s*(.*?):\s*list N", out, re.S)
+            m = re.search(r"@@RESULT\s*=\s*\(\s*(\d+)(?:%nat)?\s*,(.*)\)\s*:\s*nat \* list N", out, re.S)
+            if m and int(m.group(1)) != len(pairs[k * shard:(k + 1) * shard]):
+                raise CheckFailure("coq evaluated %s cases, expected %d" % (m.group(1), len(pairs[k * shard:(k + 1) * shard])))
+            if m:
+                m = re.match(r"(.*)", m.group(2), re.S)
             if not m:
                 raise CheckFailure("cannot parse coq output: " + out[-2000:])
-            for d in re.findall(r"(\d+)%N", m.group(1)):
+            body = m.group(1)
+            if not re.fullmatch(r"\s*\[[\d%N;\s]*\]\s*", body):
+                raise CheckFailure("unexpected coq result syntax: " + body[:500])
+            for d in re.findall(r"(\d+)(?:%N)?", body):
                 bad.append(k * shard + int(d))
     return sorted(bad)
 
